@@ -555,7 +555,9 @@ def tal_ref(template: str, globs: dict) -> str:
 CANARIES = ['"><xss-7 onx-7=1>', "'", "&", "</b>", "<script>",
             # text that already holds a complete character reference next to live markup ("already escaped" it is not)
             "Fish &amp; Chips <xss-7 onx-7=1>", "&#169; 2009 <xss-7>", "&lt;ok&gt; <xss-7>", "&#x3c;<xss-7 onx-7=1>&nbsp;"]
-_WORDS = ["alpha", "Bravo two", "c&d", "e<f>g", 'say "hi"', "it's", "x", "café", "0", "a;b"]
+_WORDS = ["alpha", "Bravo two", "c&d", "e<f>g", 'say "hi"', "it's", "x", "café", "0", "a;b",
+          # values that look like the expression syntax they are substituted into: inserted as they are, once
+          "US$$ 5", "${title} $name", "$$", "cost: $5", "a|b", "100% ${"]
 
 
 class Obj:
@@ -734,8 +736,12 @@ class TemplateGen:
                 bits.append("$" + self.path(sc, "str num")[0])       # followed by blank/end
             elif c < 0.85:
                 bits.append(r.choice(["", "p-"]) + "${" + self.path(sc, "str num")[0] + "}" + r.choice(["", ".", "s"]))
-            else:
+            elif c < 0.93:
                 bits.append("$$" + r.choice(["", "5"]))
+            else:
+                # an escaped dollar sign directly in front of a substitution ("Total: $$${amount}"), or of another one
+                bits.append(r.choice(["$$", "$$$$", "US$$"]) + r.choice(["${" + self.path(sc, "str num")[0] + "}",
+                                                                         "$" + self.path(sc, "str num")[0], "$$5"]))
         self.used.add("string:")
         return "string:" + " ".join(bits)
 
